@@ -8,7 +8,9 @@ from framework import Check
 from props.c14 import coord
 
 THEOREMS = ["Fteik.C10_freeStep_terminates", "Fteik.C10_ray_endpoints", "Fteik.C10_outcome_classes",
-            "Fteik.C10_clamp_in_hull", "Fteik.rayLoop_ok", "Fteik.rayStep_free_cont", "Fteik.rayStep_verts"]
+            "Fteik.C10_clamp_in_hull", "Fteik.rayLoop_ok", "Fteik.rayStep_free_cont", "Fteik.rayStep_verts",
+            "Fteik.C10_clamp_nonexpansive", "Fteik.C10_unit_step_2d", "Fteik.C10_unit_step_3d",
+            "Fteik.C10_step_length_le_2d", "Fteik.C10_step_length_le_3d"]
 MEDIA = ["homog", "homog", "gradient", "smooth", "layerZ", "layerX", "halfZ"]
 
 
@@ -304,15 +306,18 @@ def run(tier):
                "grid line, boundary, corner, = source, closer than one step} x step sizes x budgets (default and tiny); "
                "distinct = distinct (mode, ndim, medium, source class, end class, budget class, outcome) signatures")
     r = G.rng_for(C.seed(), "C10")
-    ck.lean(["FteikVerif.Props.C10"], THEOREMS)
+    ck.lean(["FteikVerif.Props.C10", "FteikVerif.Props.C10b"], THEOREMS)
     run_rays(ck, r, tier, honor=False)
     api_rays(ck, r, tier)
     ck.proved = ["the free-step loop terminates for every gradient field (fuel max_step+1 is never exhausted): each iteration "
                  "stores one vertex and the budget test bounds the stored rows", "a returned polyline starts exactly at the "
                  "source, ends exactly at the end point, has between 2 and max_step+1 vertices (both modes)",
                  "outcome classes: ValueError iff the end point is outside the hull, else a ray or the budget RuntimeError",
-                 "every clamped coordinate lies in the node hull (exact arithmetic)"]
-    ck.not_proved = ["consecutive vertices at most one step apart; monotone traveltime along the ray; the 1.5-cell tube; no "
+                 "every clamped coordinate lies in the node hull (exact arithmetic)",
+                 "consecutive vertices at most one step apart: the clamp is non-expansive towards points of the hull, the step "
+                 "vector has length exactly stepsize, hence a clamped free step from a point of the hull is at most stepsize "
+                 "long (2D, 3D; exact arithmetic; stated on the coordinate expressions of the kernels)"]
+    ck.not_proved = ["monotone traveltime along the ray; the 1.5-cell tube; no "
                      "RuntimeError for homogeneous equal spacing: numerical clauses, checked by the oracle on the running code"]
     return ck.finish()
 
